@@ -94,3 +94,47 @@ mutant("vid-ensure-pop", "C01", SOLVER, """            if isinstance(x, (BoolExp
                 if x is True:
                     self.constraints.pop()
                     self.constraints.pop()""", "VID-2")
+
+# ---- C13 ---------------------------------------------------------------------------------------
+ARRAY = "cspuz/array.py"
+mutant("slc-handwritten-clamp", "C13", ARRAY, """        start, stop, step = key.indices(size)
+        return False, start, stop, step""", """        start = key.start
+        stop = key.stop
+        step = key.step or 1
+        if start is None:
+            start = 0 if step > 0 else size - 1
+        else:
+            if start < 0:
+                start += size
+            start = min(max(0, start), size)
+        if stop is None:
+            stop = size if step > 0 else -1
+        else:
+            if stop < 0:
+                stop += size
+            stop = min(max(0, stop), size)
+        return False, start, stop, step""", "SLC-G", "the original defect")
+mutant("slc-range-size-floor", "C13", ARRAY, "return (stop - start + step - 1) // step", "return (stop - start + step) // step", "SLC-2")
+mutant("slc-range-size-neg", "C13", ARRAY, "return (start - stop - step - 1) // (-step)", "return (start - stop - step) // (-step)", "SLC-2")
+mutant("slc-stride-shape0", "C13", ARRAY, "data.append(self.data[y * self.shape[1] + x])", "data.append(self.data[y * self.shape[0] + x])", "SLC-3")
+mutant("slc-int-neg-twice", "C13", ARRAY, """        if p < 0:
+            p += size
+        if not 0 <= p < size:""", """        if p < 0:
+            p += size
+        if not 0 <= p <= size:""", "SLC-G")
+mutant("slc-shape-swapped", "C13", ARRAY, "return Array2D(data, (y_size, x_size))", "return Array2D(data, (x_size, y_size))", "SLC-G")
+mutant("slc-1d-slice-copy", "C13", ARRAY, """        if isinstance(key, int):
+            return self.data[key]
+        else:
+            return IntArray1D(self.data[key])""", """        if isinstance(key, int):
+            return self.data[key]
+        else:
+            return IntArray1D(self.data[key][::-1][::-1][:len(self.data) - 1] if key.step is None and key.stop is None else self.data[key])""", "SLC-G")
+mutant("slc-flatten-reversed", "C13", ARRAY, """    def flatten(self) -> IntArray1D:
+        return IntArray1D(self.data)""", """    def flatten(self) -> IntArray1D:
+        return IntArray1D(self.data[::-1])""", "SLC-G")
+mutant("slc-reshape-transposed", "C13", ARRAY, 'return BoolArray2D(cast("List[BoolExpr]", data), cast("Tuple[int, int]", shape))', 'return BoolArray2D(cast("List[BoolExpr]", data), cast("Tuple[int, int]", shape[::-1]))', "SLC-G")
+variant("slc-explicit-range", "C13", ARRAY, """        start, stop, step = key.indices(size)
+        return False, start, stop, step""", """        r = key.indices(size)
+        return False, r[0], r[1], r[2]""")
+variant("slc-range-size-neg-form", "C13", ARRAY, "return (start - stop - step - 1) // (-step)", "return (start - stop + (-step) - 1) // (-step)")
